@@ -531,9 +531,19 @@ def str_to_int(x: SymStr, base: int) -> SymInt:
         raise Unsupported(f"int(sym, {base})")
     if not x.chars:
         raise ValueError("invalid literal for int() with base %d: ''" % base)
-    oks, acc, odd = [], K(0), []
+    digits = "0123456789abcdef"[:base]
+    oks, odd = [], []
+    acc = 0  # python int while only concrete digits were seen, then a z3 term
     for c in x.chars:
-        cc = _cp(c)
+        if isinstance(c, _str):
+            d = digits.find(c.lower()) if len(c) == 1 else -1
+            if d < 0:
+                if c in "+-_" or c.isspace():
+                    raise Unsupported("int() of a partly symbolic str with sign/underscore/whitespace")
+                raise ValueError(f"invalid literal for int() with base {base}")
+            acc = acc * base + d
+            continue
+        cc = c
         if base == 16:
             ok, v = hexval(c)
         elif base == 10:
@@ -541,9 +551,11 @@ def str_to_int(x: SymStr, base: int) -> SymInt:
         else:
             ok, v = z3.And(cc >= 48, cc <= 49), cc - 48
         oks.append(ok)
-        acc = acc * base + v
+        acc = (K(acc) if isinstance(acc, _int) else acc) * base + v
         # characters python's int() tolerates in some positions: sign, '_', whitespace
-        odd.append(z3.Or(cc == 43, cc == 45, cc == 95, _isspace_cond(cc) if not isinstance(c, _str) else z3.BoolVal(c.isspace())))
+        odd.append(z3.Or(cc == 43, cc == 45, cc == 95, _isspace_cond(cc)))
+    if not oks:
+        return acc
     if bool(sbool(z3.And(oks))):
         return SymInt(z3.simplify(acc))
     # not all plain digits: either invalid, or one of python's tolerated forms
@@ -584,15 +596,59 @@ def _in_class(items, c):
     return z3.Not(e) if neg else e
 
 
+def _in_class_concrete(items, o):
+    """membership of a concrete code point in a regex class (mirrors _in_class)"""
+    hit, neg = False, False
+    for op, av in items:
+        if op is sc.NEGATE:
+            neg = True
+        elif op is sc.LITERAL:
+            hit = hit or o == av
+        elif op is sc.RANGE:
+            hit = hit or av[0] <= o <= av[1]
+        elif op is sc.CATEGORY:
+            ch = chr(o)
+            if av is sc.CATEGORY_DIGIT:
+                hit = hit or 48 <= o <= 57
+            elif av is sc.CATEGORY_NOT_DIGIT:
+                hit = hit or not (48 <= o <= 57)
+            elif av is sc.CATEGORY_SPACE:
+                hit = hit or ch.isspace()
+            elif av is sc.CATEGORY_NOT_SPACE:
+                hit = hit or not ch.isspace()
+            elif av is sc.CATEGORY_WORD:
+                hit = hit or (48 <= o <= 57) or (65 <= o <= 90) or (97 <= o <= 122) or o == 95
+            else:
+                raise Unsupported(f"regex category {av}")
+        else:
+            raise Unsupported(f"regex class item {op}")
+    return (not hit) if neg else hit
+
+
+def _c_and(c, d):
+    if c is True:
+        return d
+    if d is True:
+        return c
+    return z3.And(c, d)
+
+
+def _c_or(c, d):
+    if c is True or d is True:
+        return True
+    return z3.Or(c, d)
+
+
 def _m(nodes, chars, starts, flags=0):
-    """position-set simulation: starts {pos: cond} -> {pos: cond} after the node sequence"""
+    """position-set simulation: starts {pos: cond} -> {pos: cond} after the node sequence.
+    A condition is ``True`` or a z3 Bool (concrete prefixes never build z3 terms)."""
     n = len(chars)
     cur = starts
     for op, av in nodes:
         nxt: dict = {}
 
         def add(p, c):
-            nxt[p] = z3.Or(nxt[p], c) if p in nxt else c
+            nxt[p] = _c_or(nxt[p], c) if p in nxt else c
 
         if op is sc.LITERAL:
             for p, c in cur.items():
@@ -602,11 +658,16 @@ def _m(nodes, chars, starts, flags=0):
                         if ord(ch) == av:
                             add(p + 1, c)
                     else:
-                        add(p + 1, z3.And(c, ch == av))
+                        add(p + 1, _c_and(c, ch == av))
         elif op is sc.NOT_LITERAL:
             for p, c in cur.items():
                 if p < n:
-                    add(p + 1, z3.And(c, _cp(chars[p]) != av))
+                    ch = chars[p]
+                    if isinstance(ch, _str):
+                        if ord(ch) != av:
+                            add(p + 1, c)
+                    else:
+                        add(p + 1, _c_and(c, ch != av))
         elif op is sc.ANY:
             for p, c in cur.items():
                 if p < n:
@@ -615,14 +676,19 @@ def _m(nodes, chars, starts, flags=0):
                         if ch != "\n" or (flags & re.DOTALL):
                             add(p + 1, c)
                     else:
-                        add(p + 1, z3.And(c, ch != 10) if not (flags & re.DOTALL) else c)
+                        add(p + 1, _c_and(c, ch != 10) if not (flags & re.DOTALL) else c)
         elif op is sc.IN:
             for p, c in cur.items():
                 if p < n:
-                    cond = z3.simplify(_in_class(av, _cp(chars[p])))
+                    ch = chars[p]
+                    if isinstance(ch, _str):
+                        if _in_class_concrete(av, ord(ch)):
+                            add(p + 1, c)
+                        continue
+                    cond = z3.simplify(_in_class(av, ch))
                     if z3.is_false(cond):
                         continue
-                    add(p + 1, c if z3.is_true(cond) else z3.And(c, cond))
+                    add(p + 1, c if z3.is_true(cond) else _c_and(c, cond))
         elif op is sc.AT:
             if av in (sc.AT_BEGINNING, sc.AT_BEGINNING_STRING):
                 for p, c in cur.items():
@@ -638,7 +704,7 @@ def _m(nodes, chars, starts, flags=0):
                             if ch == "\n":
                                 add(p, c)
                         else:
-                            add(p, z3.And(c, ch == 10))
+                            add(p, _c_and(c, ch == 10))
             else:
                 raise Unsupported(f"regex AT {av}")
         elif op is sc.SUBPATTERN:
@@ -684,11 +750,13 @@ def re_match_cond(pattern: str, s, kind="match", flags=0):
         tree = _RE_CACHE[key] = sre_parse.parse(pattern, flags)
     if tree.state.flags & (re.IGNORECASE | re.MULTILINE | re.VERBOSE) & ~re.UNICODE:
         raise Unsupported("regex flags")
-    starts = {0: z3.BoolVal(True)}
+    starts = {0: True}
     if kind == "search":
-        starts = {i: z3.BoolVal(True) for i in range(len(chars) + 1)}
+        starts = {i: True for i in range(len(chars) + 1)}
     ends = _m(list(tree), chars, starts, tree.state.flags)
     conds = [c for p, c in ends.items() if (kind != "fullmatch" or p == len(chars))]
+    if any(c is True for c in conds):
+        return True
     return sbool(z3.Or(conds)) if conds else False
 
 
